@@ -74,11 +74,9 @@ def check_ref(repo, chk):
                     break
                 if isinstance(st, ast.Assign) and any(isinstance(t, ast.Name) and t.id == name for t in st.targets):
                     killed = st
-            chk.instance("R-carry", "%s: `%s` carries `%s` across iterations of the loop at its level: %s" % (f.key, norm_text(n), name, killed is None))
-            if killed is not None:
-                chk.violation("R-carry", f.key, "carry:%s" % name, "`%s` is re-initialised by `%s` at the top of every iteration, so the update `%s` never reaches the next iteration" % (name, norm_text(killed), norm_text(n)), file=CAL, line=killed.lineno)
-    if n_aug < 1:
-        raise AnalysisError("no loop-carried update found in tf_pwa/cal_angle.py (the `bias -= pi` offset vanished)")
+            # information only: whether an update is meant to be carried is decided below, by interpreting the daughter
+            # loop (a per-iteration accumulator such as `r *= ...` is re-initialised on purpose)
+            chk.instance("R-carry", "%s: `%s` updates `%s` inside a loop; re-initialised earlier in the same iteration: %s" % (f.key, norm_text(n), name, killed is not None), nontrivial=False)
     # the offset in cal_helicity_angle specifically: the k-th daughter's azimuth is wrapped into [-(k+1) pi, -(k+1) pi + 2 pi)
     # decided by interpreting the statements of the daughter loop that concern `bias` and ang["alpha"]
     import sympy as sp
@@ -86,7 +84,10 @@ def check_ref(repo, chk):
     from ..sym import Translator, Unmodelled, equal
 
     h = repo.fn(CAL + "::cal_helicity_angle")
-    loops = [n for n in walk_local(h.node) if isinstance(n, ast.For) and norm_text(n.iter).endswith(".outs") and any(isinstance(x, ast.AugAssign) and isinstance(x.target, ast.Name) for x in ast.walk(n))]
+    def _stores_alpha(loop_):
+        return any(isinstance(x, ast.Assign) and isinstance(x.targets[0], ast.Subscript) and isinstance(x.targets[0].slice, ast.Constant) and x.targets[0].slice.value == "alpha" for x in ast.walk(loop_))
+
+    loops = [n for n in walk_local(h.node) if isinstance(n, ast.For) and norm_text(n.iter).endswith(".outs") and _stores_alpha(n)]
     if not loops:
         raise AnalysisError("cal_helicity_angle: daughter loop with a carried offset not found")
     loop = loops[0]
